@@ -268,7 +268,7 @@ def run(ck):
     binp = ck.go_build("c05")
     if not binp:
         return
-    n = "120" if ck.tier == "quick" else "1200"
+    n = "120" if ck.tier == "quick" else "2500"
     recs = ck.run_harness(binp, ["-n", n])
     if recs is None:
         return
